@@ -280,7 +280,9 @@ func (c *context) SendMsg(m *protocol.Message) error {
 	if c.sendExpire > 0 {
 		c.sendTimer = time.AfterFunc(c.sendExpire, func() {
 			s.Lock()
-			if c.sendMsg == m {
+			// The message alone does not identify this Send: a later
+			// Send may have been handed the same (recycled) message.
+			if c.sendMsg == m && c.reqID == id {
 				expired = true
 				c.cancel() // also does a wake-up
 			}
